@@ -27,12 +27,23 @@ def written_off_jobs(rnd, prof, tier):
     return jobs
 
 
+def extra(rnd, prof, tier):
+    """+ sessions in which an initial worker or a REPLACEMENT collected a permuted / partly different list of the same length:
+    'valid positions of the agreed collection' means positions of a list the addressed worker has itself agreed on (seeded C16-5:
+    a replacement accepted after an order-insensitive comparison is sent indices that mean other tests there)"""
+    jobs = written_off_jobs(rnd, prof, tier)
+    if prof == "crash":
+        from props import c09
+        jobs += c09.disagree_jobs(rnd, 400 if tier == "quick" else 6000)
+    return jobs
+
+
 def run(out: common.Outcome):
     system_common.standard_run(
-        out, "C16", [("nocrash", 0.3), ("crash", 0.7)], ["command_stream", "steal_protocol", "internal_error"],
+        out, "C16", [("nocrash", 0.3), ("crash", 0.7)], ["command_stream", "steal_protocol", "internal_error", "agreed_collection"],
         nontrivial=lambda r: len(r["cfg"]["coll"]) >= 2,
         rule="all modes; regular-language monitor over every down-wire (nothing after shutdown, at most one shutdown, valid indices, no index outstanding on two live workers, steals only of booked tests); non-trivial = at least two tests",
-        modes=None, extra_jobs=written_off_jobs, extra_corr=system_common.ctl_extra(['command_stream', 'internal_error']))
+        modes=None, extra_jobs=extra, extra_corr=system_common.ctl_extra(['command_stream', 'internal_error']))
 
 
 replay = system_common.replay
